@@ -235,7 +235,21 @@ class Flow:
                     return self.origins(fi.parent, n, recv_cls, _depth + 1, _seen)
                 return {("global", n.id)}
             for kind, value, _ in defs:
-                o = self.origins(fi, value, recv_cls, _depth + 1, _seen)
+                src = value
+                if kind == "elem":
+                    # the elements of a slice / a reordered or copied sequence
+                    # are the elements of the sequence itself
+                    for _k in range(4):
+                        if isinstance(src, ast.Subscript) and isinstance(src.slice, ast.Slice):
+                            src = src.value
+                        elif (
+                            isinstance(src, ast.Call) and isinstance(src.func, ast.Name) and src.func.id in ("reversed", "sorted", "list", "tuple")
+                            and len(src.args) == 1
+                        ):
+                            src = src.args[0]
+                        else:
+                            break
+                o = self.origins(fi, src, recv_cls, _depth + 1, _seen)
                 if kind == "value":
                     out |= o
                 elif kind in ("elem", "unpack", "with"):
